@@ -460,6 +460,11 @@ func init() {
 	intrinsics["internal/stringslite.IndexByte"] = intrinsics["internal/bytealg.IndexByteString"]
 	intrinsics["bytes.IndexByte"] = intrinsics["internal/bytealg.IndexByte"]
 
+	// ---- easyjson unsafe casts ----
+	intrinsics["github.com/mailru/easyjson/jlexer.bytesToStr"] = func(fr *frame, a []value) value {
+		return bytesToString(a[0].([]value))
+	}
+
 	// ---- math/big assembly kernels: use the portable versions ----
 	for _, k := range []string{"addVV", "subVV", "addVW", "subVW", "shlVU", "shrVU", "mulAddVWW", "addMulVVW"} {
 		k := k
